@@ -62,6 +62,7 @@ class Contract:
         names = [p.arg for p in a.posonlyargs + a.args + a.kwonlyargs]
         C = SpecCtx(interp, callsite=True, qualname=self.qualname)
         r = self.spec(C, *[loc[n] for n in names])
+        interp.last_apply_inlined = r is INLINE
         if r is INLINE:
             saved = interp.under_verification
             interp.under_verification = self.qualname
@@ -69,6 +70,7 @@ class Contract:
                 return interp.call_function(f, args, kwargs)
             finally:
                 interp.under_verification = saved
+                interp.last_apply_inlined = True
         return r
 
 
